@@ -268,6 +268,17 @@ class PairSet(Model):
         a, b = self._pair(p)
         return wrap_bool(self.S.rel(self.f, a, b))
 
+    def m_truth(self, vm):
+        # bool(set): some pair is in it
+        ctx = vm.ctx
+        if ctx.branch(ctx.fresh_bool("pairs_nonempty")):
+            x0, y0 = ctx.fresh_const("pair_src", Nd), ctx.fresh_const("pair_tgt", Nd)
+            ctx.assume(self.S.rel(self.f, x0, y0))
+            return True
+        x, y = V("px py", Nd)
+        ctx.assume(z3.ForAll([x, y], z3.Not(self.S.rel(self.f, x, y))))
+        return False
+
     def m_getattr(self, vm, name):
         S, f = self.S, self.f
         if name == "add":
@@ -300,6 +311,15 @@ class RelationIndex(Model):
         if not vm.ctx.branch(self.S.relp(fc)):
             vm.raise_("KeyError", f)
         return PairSet(self.S, fc)
+
+    def m_delitem(self, vm, f):
+        S = self.S
+        fc = self.field_code(vm, f)
+        if not vm.ctx.branch(S.relp(fc)):
+            vm.raise_("KeyError", f)
+        oldp, oldr = S.relp, S.rel
+        S.relp = lambda ff: z3.And(ff != fc, oldp(ff))
+        S.rel = lambda ff, x, y: z3.And(ff != fc, oldr(ff, x, y))
 
     def m_setitem(self, vm, f, val):
         S = self.S
